@@ -60,6 +60,11 @@ def main(pid, runner, argv):
     t0 = time.time()
     os.makedirs(REPLAY, exist_ok=True)
     evfile = os.path.join(EVID, pid + ".json")
+    alt = os.environ.get("VERIF_REPO")
+    if alt and os.path.realpath(alt) != "/repo":
+        # mutation / seed runs against another tree must not overwrite the evidence of the real tree
+        os.makedirs(os.path.join(VERIF, ".build", "evidence-other-tree"), exist_ok=True)
+        evfile = os.path.join(VERIF, ".build", "evidence-other-tree", pid + ".json")
     try:
         runner(ctx)
     except TlcFailure as e:
